@@ -187,8 +187,6 @@ func (w *World) VerifyFunc(fi *FuncInfo, c *Contract, opts VerifyOpts) (res *Uni
 		sig = closureSig
 		ex.curFnSig = closureSig
 	}
-	// trusted global axioms requested by spec files
-	ex.installAxioms(p)
 	// requires
 	if c != nil {
 		for _, r := range c.Requires {
@@ -199,6 +197,7 @@ func (w *World) VerifyFunc(fi *FuncInfo, c *Contract, opts VerifyOpts) (res *Uni
 		ex.addObl(p, key+"#cover.requires", "cover", "precondition is satisfiable", "false", fi.Decl.Pos(), "")
 	}
 	entryHeap := map[string]string{}
+	p.oldHeap, p.oldGen = entryHeap, ""
 	outs := ex.execBlock(p, body.List)
 	res.Paths = len(outs)
 	for _, o := range outs {
@@ -265,17 +264,52 @@ func (w *World) VerifyFunc(fi *FuncInfo, c *Contract, opts VerifyOpts) (res *Uni
 	return res
 }
 
-// installAxioms adds the trusted axioms of the spec files to the unit.
-func (ex *Exec) installAxioms(p *Path) {
-	for _, ax := range ex.w.Axioms {
-		if !ex.axiomRelevant(ax) {
-			continue
+// installAxioms adds the trusted axioms of the spec files to the unit. An axiom is relevant only if every
+// heap field, observer and spec symbol it mentions already occurs in the unit (otherwise it cannot take part
+// in any proof of this unit); irrelevant axioms are left out to keep the queries small.
+func (ex *Exec) installAxioms() {
+	for round := 0; round < 3; round++ {
+		added := false
+		for _, ax := range ex.w.Axioms {
+			if ex.c.axiomSeen["axiom:"+ax.Name] || ex.axiomSkipped[ax.Name] == round+1 {
+				continue
+			}
+			before := map[string]bool{}
+			for k := range ex.c.funSeen {
+				before[k] = true
+			}
+			nDecl, nAx := len(ex.c.funDecls), len(ex.c.axioms)
+			ex.installAxiom(ax)
+			relevant := true
+			for _, d := range ex.c.funDecls[nDecl:] {
+				// a symbol first declared by the axiom itself: the unit never mentioned it
+				if strings.Contains(d, "|H:") || strings.Contains(d, "|obs:") || strings.Contains(d, "|spec:") || strings.Contains(d, "|fn:") {
+					relevant = false
+				}
+			}
+			if !relevant {
+				// roll back
+				for _, d := range ex.c.funDecls[nDecl:] {
+					name := firstArg(strings.TrimPrefix(strings.TrimPrefix(d, "(declare-fun "), "(declare-const "))
+					delete(ex.c.funSeen, name)
+				}
+				ex.c.funDecls = ex.c.funDecls[:nDecl]
+				for _, n := range ex.c.axiomName[nAx:] {
+					delete(ex.c.axiomSeen, n)
+				}
+				ex.c.axioms = ex.c.axioms[:nAx]
+				ex.c.axiomName = ex.c.axiomName[:nAx]
+				delete(ex.c.trusted, "axiom:"+ax.Name+" ("+ax.File+")")
+				ex.axiomSkipped[ax.Name] = round + 1
+				continue
+			}
+			added = true
 		}
-		ex.installAxiom(ax)
+		if !added {
+			break
+		}
 	}
 }
-
-func (ex *Exec) axiomRelevant(ax *SpecAxiom) bool { return true }
 
 func (ex *Exec) installAxiom(ax *SpecAxiom) {
 	if ex.c.axiomSeen["axiom:"+ax.Name] {
@@ -327,6 +361,7 @@ func (ex *Exec) discharge(opts VerifyOpts) []OblResult {
 	if timeout == 0 {
 		timeout = 10 * time.Second
 	}
+	ex.installAxioms()
 	prelude := ex.c.Prelude()
 	results := make([]OblResult, len(ex.oblOrder))
 	var wg sync.WaitGroup
@@ -489,7 +524,6 @@ func (w *World) VerifyLemma(l *Lemma, opts VerifyOpts) (res *UnitResult) {
 			p.Assume("(not (= " + v.T + " null))")
 		}
 	}
-	ex.installAxioms(p)
 	ex.contractMode = 1
 	nEns := 0
 	var concl []string
